@@ -83,21 +83,17 @@ func (c *Client) Metadata(ctx context.Context, req *MetadataRequest) (*MetadataR
 		}
 
 		for j, p := range t.Partitions {
+			// Broker ids that are not in the list of brokers of the response
+			// (replicas hosted on brokers that are offline, no leader) are
+			// reported as placeholders carrying the id, like ReadPartitions
+			// does, instead of the zero Broker which reads as broker 0.
 			partition := Partition{
 				Topic:    t.Name,
 				ID:       int(p.PartitionIndex),
-				Leader:   brokers[p.LeaderID],
-				Replicas: make([]Broker, len(p.ReplicaNodes)),
-				Isr:      make([]Broker, len(p.IsrNodes)),
+				Leader:   makeBrokers(brokers, p.LeaderID)[0],
+				Replicas: makeBrokers(brokers, p.ReplicaNodes...),
+				Isr:      makeBrokers(brokers, p.IsrNodes...),
 				Error:    makeError(p.ErrorCode, ""),
-			}
-
-			for i, id := range p.ReplicaNodes {
-				partition.Replicas[i] = brokers[id]
-			}
-
-			for i, id := range p.IsrNodes {
-				partition.Isr[i] = brokers[id]
 			}
 
 			ret.Topics[i].Partitions[j] = partition
